@@ -73,7 +73,7 @@ def invalid_cfg(rnd):
     base = random_cfg(rnd, maxrules=4)
     d, rules = base
     pos = rnd.randint(0, len(rules))
-    k = rnd.randrange(14)
+    k = rnd.randrange(17)
     mk = lambda **kw: GM.rule(kw.pop("match", b"a.*"), kw.pop("name", b"x_$1"), help=b"bad", **kw)
     if k == 0:
         return "unparsable", "EYaml"
@@ -103,6 +103,12 @@ def invalid_cfg(rnd):
         bad, e = mk(match=rnd.choice([b"(", b"a[", b"*a", b"(?P<x", b"a{2,1}"]), match_type=b"regex"), "EBadRegex"
     elif k == 12:
         bad, e = mk(observer_type=b"histogram", summary=GM.summ(quantiles=[(0.5, 0.1)])), "EHistWithSummaryOpts"
-    else:
+    elif k == 13:
         bad, e = mk(observer_type=b"summary", hist=dict(buckets=[1.0, 2.0])), "ESummWithHistOpts"
+    elif k == 14:
+        bad, e = mk(observer_type=b"histogram", hist=dict(buckets=rnd.choice([[3.0, 2.0, 1.0], [1.0, 1.0], [1.0, float("nan")], [float("inf"), 1.0]]))), "EBadBuckets"
+    elif k == 15:
+        bad, e = mk(observer_type=b"summary", summary=GM.summ(quantiles=[(rnd.choice([1.5, -0.5, float("nan"), float("inf")]), 0.1)])), "EBadSummary"
+    else:
+        bad, e = mk(observer_type=b"summary", summary=GM.summ(quantiles=[(0.5, 0.1)], max_age=-10**9)), "EBadSummary"
     return (d, rules[:pos] + [bad] + rules[pos:]), e
